@@ -283,7 +283,62 @@ def _expected_demand_case(kind, existing):
     return Case("%s,existing=%s" % (kind, existing), build, crosscheck=False)
 
 
+# ------------------------------------------------------------------------------------------------
+# source_head_param: the fixed head of a tank is its current head; of a reservoir its head pattern at sim_time + pattern_start
+
+HEADAT = fn("head_timeseries_at", NameSort, I, R)
+
+
+class HeadTS(NativeModel):
+    def __init__(self, n):
+        self.n = n
+
+    def at(self, time):
+        return SV(HEADAT(self.n.t, library.as_int(time)), "real")
+
+
+class WNS(WN):
+    def tanks(self):
+        return [(nm, o) for nm, o in self.nodes if o.cls.__name__ == "Tank"]
+
+    def reservoirs(self):
+        return [(nm, o) for nm, o in self.nodes if o.cls.__name__ == "Reservoir"]
+
+
+def _source_head_case(existing):
+    def build(cx):
+        from wntr.network.elements import Tank, Reservoir
+        from contracts._net import time_options
+        from contracts.params import leafmap
+        tn, rn = cx.name("tank"), cx.name("reservoir")
+        cx.assume(cx.t(tn) != cx.t(rn))
+        st, ps, th = cx.int("sim_time"), cx.int("pattern_start"), cx.real("tank_head")
+        cx.assume(cx.t(st) >= 0, cx.t(ps) >= 0)
+        tank = mk_node(cx, Tank, tn, _head=th)
+        res = mk_node(cx, Reservoir, rn, _head_timeseries=HeadTS(rn))
+        wn = WNS(options=cx.obj(types.SimpleNamespace, time=time_options(cx, pattern_start=ps)))
+        wn.sim_time = st
+        wn.nodes.extend([(tn, tank), (rn, res)])
+        m = cx.obj(ModelStub, **({"source_head": leafmap("source_head", True)} if existing else {}))
+        cx.target(param.source_head_param, m, wn)
+
+        def post(out):
+            if not out.returned:
+                return []
+            mp = m.fields["source_head"]
+
+            def val(k):
+                leaf = cx.interp.getitem(mp, k)
+                return library.as_real(leaf.value if isinstance(leaf, Leaf) else leaf)
+            return [("tank_source_head_is_its_current_head", val(tn) == cx.t(th)),
+                    ("reservoir_source_head_is_its_head_pattern_at_simulation_time_plus_pattern_start", val(rn) == HEADAT(rn.t, cx.t(st) + cx.t(ps)))]
+        cx.ensure(post)
+    return Case("existing=%s" % existing, build, crosscheck=False)
+
+
 CONTRACTS = [
+    Contract("wntr.sim.models.param:source_head_param", ["C01", "C02", "C03", "C06"], [_source_head_case(e) for e in (False, True)],
+             models=amlmodel.build_models, trusted=["aml.Param(v) is a box holding v (DESIGN 2.5)", "TimeSeries.at (this file)"]),
     Contract("wntr.network.elements:Pattern.at", P, _pattern_cases + [_pattern_no_timeopts_case()],
              note="times and the pattern timestep are integers (seconds)"),
     Contract("wntr.network.elements:TimeSeries.at", P, [_timeseries_case(True), _timeseries_case(False)], models=_ts_models,
